@@ -66,7 +66,8 @@ class C06(Prop):
         yield {"kind": "d26_literal", "src": D26_SRC, "xseed": 1}
         n = 200 if tier == "quick" else 4000
         for i in range(n):
-            g = Gen6(random.Random(rng.getrandbits(48)), full=True, depth=rng.choice([1, 2, 2, 3]))
+            g = Gen6(random.Random(rng.getrandbits(48)), full=True, depth=rng.choice([1, 2, 2, 3]),
+                     carried=rng.choice([0.0, 0.0, 0.5]))
             yield {"kind": "overlap", "src": g.program(), "xseed": rng.getrandbits(32)}
 
     def _run(self, case):
@@ -90,7 +91,10 @@ class C06(Prop):
         irs = [pre] + [a for (_, _, _, a, *_r) in log]
         progs = []
         for t in irs:
-            _, _, c = convert(t)
+            try:
+                _, _, c = convert(t)
+            except ac.Unsupported as e:
+                return {"unmodelled": str(e), "n_steps": len(log), "kinds": ["oracle-only"], "d26_steps": loop_steps_with_other_setups(log)}
             progs.append({"prog": c.program(), "points": ac.real_inference_at_points(c)})
         kinds = sorted({n.replace("SetupAwaitOverlapPattern", "") for (n, *_r) in log})
         return {"progs": progs, "n_steps": len(log), "kinds": kinds, "d26_steps": loop_steps_with_other_setups(log)}
